@@ -28,6 +28,8 @@ type ListIter struct {
 	failed  bool
 	// Calls counts Next+Seek invocations (for callback-indexed fault injection).
 	Calls int
+	// Panic: instead of failing with FailErr the iterator panics with it.
+	Panic bool
 }
 
 func NewListIter(s []Sample) *ListIter { return &ListIter{S: s, pos: -1, FailAt: -1} }
@@ -37,6 +39,9 @@ func (it *ListIter) land() chunkenc.ValueType {
 		return chunkenc.ValNone
 	}
 	if it.FailAt >= 0 && it.pos >= it.FailAt {
+		if it.Panic {
+			panic(it.FailErr)
+		}
 		it.failed = true
 		it.pos = len(it.S)
 		return chunkenc.ValNone
